@@ -168,12 +168,19 @@ func main() {
 			hx.WriteFile(filepath.Join(dir, fmt.Sprintf("f%d.go", t)), src)
 		}
 		flags := append([]int{0}, pick(versions, *nflags)...)
+		for i := range flags { // seeded order, and the first value is run again at the end (warm, after all others)
+			j := i + rnd.Intn(len(flags)-i)
+			flags[i], flags[j] = flags[j], flags[i]
+		}
+		flags = append(flags, flags[0])
 		for _, fl := range flags {
 			gv := "module"
 			if fl != 0 {
 				gv = "go1." + strconv.Itoa(fl)
 			}
-			cacheDir := filepath.Join(*work, fmt.Sprintf("cache-%d-%d", m, fl))
+			// ONE cache directory per module, shared by the runs with different -go values (in seeded order):
+			// a result cached under one effective version must never be served under another.
+			cacheDir := filepath.Join(*work, fmt.Sprintf("cache-%d", m))
 			res, err := hx.RunAnalyzers(dir, cacheDir, gv, config.DefaultConfig, []*analysis.Analyzer{an}, nil, ".")
 			if err != nil {
 				fmt.Fprintln(os.Stderr, "run failed:", err)
@@ -214,7 +221,6 @@ func main() {
 				sort.Strings(byFile[n].Reported)
 				o.Cells = append(o.Cells, *byFile[n])
 			}
-			os.RemoveAll(cacheDir)
 		}
 	}
 	hx.EmitJSON(*out, o)
